@@ -146,10 +146,19 @@ def rebuild_repo():
     return time.time() - t0
 
 
-def lake_build():
+def lake_build(pid=None):
+    """Build the model driver and the property's own theorem module (not the other properties':
+    a broken regenerated obligation of one property must not take the other checks down)."""
     t0 = time.time()
     with _Lock("lean"):
-        rc, out = _run(["lake", "build"], cwd=LEAN)
+        rc, out = _run(["lake", "build", "modeldriver"], cwd=LEAN)
+        if rc != 0:
+            return 2, out, time.time() - t0
+        if pid is not None:
+            rc, out2 = _run(["lake", "build", "BioscrapeModel.Properties.%s" % pid], cwd=LEAN)
+            out += out2
+            if rc != 0:
+                rc = 1
     return rc, out, time.time() - t0
 
 
